@@ -3,12 +3,15 @@ use serde_json::Value;
 
 pub mod c01;
 pub mod c06;
+pub mod c07;
 pub mod c08;
 pub mod c09;
 pub mod c10;
 pub mod c11;
 pub mod c13;
 pub mod c14;
+pub mod c15;
+pub mod c16;
 pub mod c17;
 pub mod c19;
 
@@ -23,12 +26,15 @@ pub fn all() -> Vec<PropDef> {
     vec![
         PropDef { id: "C01", run: c01::run, replay: c01::replay },
         PropDef { id: "C06", run: c06::run, replay: c06::replay },
+        PropDef { id: "C07", run: c07::run, replay: c07::replay },
         PropDef { id: "C08", run: c08::run, replay: c08::replay },
         PropDef { id: "C09", run: c09::run, replay: c09::replay },
         PropDef { id: "C10", run: c10::run, replay: c10::replay },
         PropDef { id: "C11", run: c11::run, replay: c11::replay },
         PropDef { id: "C13", run: c13::run, replay: c13::replay },
         PropDef { id: "C14", run: c14::run, replay: c14::replay },
+        PropDef { id: "C15", run: c15::run, replay: c15::replay },
+        PropDef { id: "C16", run: c16::run, replay: c16::replay },
         PropDef { id: "C17", run: c17::run, replay: c17::replay },
         PropDef { id: "C19", run: c19::run, replay: c19::replay },
     ]
